@@ -214,7 +214,8 @@ func runE2E(seed int64, total int) (evs []jev, incomplete string) {
 	kind := []string{"finite", "valid"}[rng.Intn(2)]
 	var rep sse.Replayer
 	if kind == "finite" {
-		rep, _ = sse.NewFiniteReplayer(total+16, auto)
+		// exactly as large as the run: the ring is full and its write index back at 0 when the last event is in
+		rep, _ = sse.NewFiniteReplayer(total, auto)
 	} else {
 		rep, _ = sse.NewValidReplayer(time.Hour, auto)
 	}
@@ -339,6 +340,38 @@ func runE2E(seed int64, total int) (evs []jev, incomplete string) {
 	if cur != nil && rng.Intn(2) == 0 {
 		go func() { time.Sleep(time.Duration(rng.Intn(2000)) * time.Microsecond); cur.doCut([]string{"rst", "fin", "handler"}[int(seed)%3], "first") }()
 	}
+	curConn := func() *cutConn {
+		cl.mu.Lock()
+		defer cl.mu.Unlock()
+		if len(cl.conns) == 0 {
+			return nil
+		}
+		return cl.conns[len(cl.conns)-1]
+	}
+	nreq := func() int {
+		log.mu.Lock()
+		defer log.mu.Unlock()
+		n := 0
+		for _, e := range log.evs {
+			if e["e"] == "req" {
+				n++
+			}
+		}
+		return n
+	}
+	// a cut in a quiet moment: the client has everything, reconnects with the newest ID before anything new
+	// is published - the steady-state reconnect, which must replay nothing
+	quietCut := func(kind string) {
+		if !waitFor(func() bool { return lastRecv.Load() == int64(k) }, 2*time.Second) {
+			return
+		}
+		before := nreq()
+		if c := curConn(); c != nil {
+			c.doCut(kind, "quiet")
+		}
+		waitFor(func() bool { return nreq() > before }, 500*time.Millisecond)
+		time.Sleep(2 * time.Millisecond)
+	}
 	for k < total {
 		k++
 		if !publish(k) {
@@ -347,11 +380,18 @@ func runE2E(seed int64, total int) (evs []jev, incomplete string) {
 		if d := rng.Intn(6); d > 0 {
 			time.Sleep(time.Duration(d*150) * time.Microsecond)
 		}
+		if rng.Intn(7) == 0 {
+			quietCut([]string{"rst", "fin", "handler"}[rng.Intn(3)])
+		}
 	}
 	cl.mu.Lock()
 	cl.enabled = false
 	cl.mu.Unlock()
 	caught := waitFor(func() bool { return lastRecv.Load() == int64(total) }, 15*time.Second)
+	if caught {
+		quietCut("rst")
+		time.Sleep(20 * time.Millisecond) // anything replayed by mistake arrives now
+	}
 	select {
 	case err := <-connDone:
 		// Connect ended although retries are unbounded and nobody cancelled: permanent error (e.g. an empty 200) - outside the property if no wrong event was seen
